@@ -421,7 +421,7 @@ func c01Run(e *Emitter, g gMsg) {
 	if !pr.panicked && pr.err == nil {
 		fresh := newPooled()
 		in := append([]byte{}, pbytes...)
-		r := watched(func() (int, error) { return fresh.UnmarshalWithDecoder(cd, in) }, 5*time.Second)
+		r := watched(func() (int, error) { return fresh.UnmarshalWithDecoder(cd, in) }, 10*time.Second)
 		fc := -1
 		if !r.hang && !r.panicked && r.err == nil {
 			fc = cap(fresh.Options())
@@ -476,8 +476,8 @@ func runC01(a runArgs) error {
 	n := 500
 	nbig := 6
 	if a.tier == "thorough" {
-		n = 6000
-		nbig = 120
+		n = 3000
+		nbig = 40
 	}
 	// hand-picked corners first
 	for coder := 0; coder <= 1; coder++ {
